@@ -154,6 +154,7 @@ func checkC19(w *World, r *Report) {
 	c19Discarded(w, r, reach, parent)
 	c19Tables(w, r)
 	c19Recursion(w, r)
+	c19NilCause(w, r)
 	// premise: request goroutines recover (C01.8)
 	c01Recovery(w, r)
 }
